@@ -161,6 +161,18 @@ func (x *runner) runCase(c Case) (v *verdict, skipped bool, stats map[string]int
 		return &verdict{"handshake-failed", err.Error()}, false, stats
 	}
 	defer pr.Close()
+	// the constructors have returned: no handshake deadline may stay armed on the underlying
+	// conn, in either half — a conn that honours deadlines would kill the established
+	// connection 60 s (client) / 30 s (server) after it was made
+	for role, a := range pr.Armed {
+		if a != "" {
+			stats["hs-surplus"] = len(pr.Surplus)
+			return &verdict{"deadline-left-armed-after-handshake", fmt.Sprintf("%s: the handshake succeeded and %s returned, but on its underlying conn the %s; the client's handshake reads ended %d bytes after the end of the server's response (MAC_S); response length %d, request length %d",
+				[]string{"client", "server"}[role], []string{"Dial", "WrapConn"}[role], a, len(pr.Surplus), pr.RespLen, pr.HelloLen)}, false, stats
+		}
+	}
+	stats["hs-deadline-checked"] = 2
+	stats["hs-surplus-len"] = len(pr.Surplus)
 
 	tie := newTie(x, pr)
 	defer tie.close()
@@ -449,6 +461,20 @@ func (x *runner) runCase(c Case) (v *verdict, skipped bool, stats map[string]int
 	return nil, false, stats
 }
 
+func surplusClass(n, checked int) string {
+	switch {
+	case checked == 0:
+		return "not-evaluated"
+	case n == 0:
+		return "exactly-after-MAC_S"
+	case n < 45:
+		return "inside-seed-frame"
+	case n == 45:
+		return "after-seed-frame"
+	}
+	return "beyond-seed-frame"
+}
+
 func cutClass(off int) string {
 	switch {
 	case off == 0:
@@ -491,6 +517,24 @@ func addFin(rng *vlib.Rng, c *Case, prob int) {
 			Op{Kind: "fin", Dir: d, Chunk: pickChunker(rng, sum(sz)), ReadSz: pickReads(rng, sum(sz)),
 				End: vlib.Pick(rng, []string{"eof", "eof", "other", "timeout"}), Joint: rng.Intn(4) != 0})
 	}
+}
+
+// genHsCut: one fixed parameter set per family (so the flights are the same bytes), the server's
+// first flight (response ‖ inline seed frame [‖ early data]) or the client's request cut at one
+// offset; then a byte each way. Evaluates the handshake hand-over and the deadline oracle at
+// every cut point, in particular exactly after MAC_S (respat 0), one before, one after.
+func genHsCut(p o4pair.Params, fam int, which string, n int, early []int) Case {
+	c := Case{Name: fmt.Sprintf("hscut-%d-%s%+d", fam, which, n), P: p, Early: early, EarlyRead: []int{4096}}
+	c.Hello, c.Resp = o4pair.Chunker{Kind: "whole"}, o4pair.Chunker{Kind: "whole"}
+	switch which {
+	case "resp": // n bytes after (before, if negative) the end of the server's response
+		c.Resp = o4pair.Chunker{Kind: "respat", N: n}
+	case "req": // n bytes into the client's request
+		c.Hello = o4pair.Chunker{Kind: "at", N: n}
+	}
+	c.Ops = []Op{{Kind: "w", Dir: 0, Sizes: []int{1}}, {Kind: "mv", Dir: 0, Chunk: o4pair.Chunker{Kind: "whole"}, ReadSz: []int{100}},
+		{Kind: "w", Dir: 1, Sizes: []int{1}}, {Kind: "mv", Dir: 1, Chunk: o4pair.Chunker{Kind: "whole"}, ReadSz: []int{100}}}
+	return c
 }
 
 // tmoCuts: where, relative to a frame, the temporary read error strikes
@@ -795,7 +839,9 @@ func (a *agg) record(o Outcome) {
 	r.Count("iat-mode", fmt.Sprint(c.P.IAT))
 	r.Count("dist", map[bool]string{false: "uniform", true: "biased"}[c.P.Biased])
 	r.Count("family", familyOf(c.Name))
-	if len(c.Early) > 0 {
+	if familyOf(c.Name) == "hscut" {
+		r.Count("handshake-reads-end", surplusClass(st["hs-surplus-len"], st["hs-deadline-checked"]))
+	} else if len(c.Early) > 0 {
 		r.Count("handshake", "data-coalesced:"+c.Resp.String())
 	} else {
 		r.Count("handshake", "plain:"+c.Resp.String())
@@ -932,6 +978,42 @@ func main() {
 		to = 3100
 	}
 	batch(len(sweeps)*2, func(i int) Case { return genSweep(rng.Fork(), i, sweeps[i/2], 0, 1, to, 1) })
+	// every cut point of the two handshake flights (deadline + hand-over oracle, both roles)
+	{
+		nFam := r.Scale(3, 6)
+		for fam := 0; fam < nFam; fam++ {
+			p := o4pair.RandomParams(rng.Fork(), 0, false)
+			var early []int
+			if fam%3 == 1 {
+				early = []int{100}
+			}
+			var cs []Case
+			for n := -8200; n <= 60+1600; n++ {
+				dense := n >= -130 && n <= 60
+				if !r.Thorough() && !dense && n%23 != 0 {
+					continue
+				}
+				if n > 60 && len(early) == 0 {
+					break
+				}
+				cs = append(cs, genHsCut(p, fam, "resp", n, early))
+			}
+			for n := 1; n <= 8200; n++ {
+				if !r.Thorough() && n > 70 && n%23 != 0 {
+					continue
+				}
+				cs = append(cs, genHsCut(p, fam, "req", n, early))
+			}
+			const bs = 256
+			for lo := 0; lo < len(cs) && within(); lo += bs {
+				hi := lo + bs
+				if hi > len(cs) {
+					hi = len(cs)
+				}
+				a.evaluate(cs[lo:hi], "generated")
+			}
+		}
+	}
 	// temporary read errors at the characteristic offsets of one frame (quick) / at every offset (thorough)
 	{
 		var offs []int
